@@ -17,8 +17,8 @@ logging.disable(logging.CRITICAL)
 warnings.simplefilter("ignore")
 
 from traits.api import (  # noqa: E402
-    Any, Dict, Either, HasTraits, Instance, Int, Interface, List, Property, PrototypedFrom, Set, Supports, TraitError,
-    TraitType,
+    Any, Dict, Either, HasTraits, Instance, Int, Interface, List, Property, PrototypedFrom, Set, Str, Supports,
+    TraitError, TraitType, Union,
     Tuple,
     cached_property, provides, push_exception_handler, register_factory)
 from traits.observation.api import match, trait  # noqa: E402
@@ -145,6 +145,10 @@ class Part(HasTraits):
     w = VW(0)
 
 
+class Child(HasTraits):         # the intermediate link of the extended name 'child.value' (ops RegDot / UnregDot / ReadCh / SetCV)
+    value = Int()
+
+
 class ProtoD(HasTraits):        # the prototype object of the PrototypedFrom trait `pv` (opaque ops SetPV / SetDPV / DelPV)
     pv = V()
 
@@ -167,6 +171,8 @@ class A(HasTraits):
     w = Int(0)                                    # synchronised with two partner objects (opaque ops SetW / SetPW)
     deleg = Instance(ProtoD)
     pv = PrototypedFrom("deleg")                  # validated by the prototype's trait; a listener forwards its changes
+    child = Instance(Child)                       # created by a user default method (a deciding callback)
+    u = Union(V(), Str())                         # a custom validator as the first alternative of a Union (op SetU)
     q = Int(0)                                    # never assigned: first graph of the two-graph observer expression
     _log = Any()
 
@@ -178,6 +184,10 @@ class A(HasTraits):
             PLAN["fired"] = True                # raises while the new value is computed for a notification
             raise PLAN["exc"]("injected")
         return 3 * self.x
+
+    def _child_default(self):
+        tick_call()
+        return Child()
 
     def _y_default(self):
         tick_call()
@@ -238,8 +248,13 @@ def make():
     def dyn_pv(obj, name, old, new):
         handler_body(a, 9, old, new)
 
+    def dyn_cv(obj, name, old, new):
+        handler_body(a, 10, old, new)
+
     a.on_trait_change(dyn, "x")
     a.deleg = ProtoD(pv=1)
+    a.u = 1
+    a.__dict__["_h10"] = dyn_cv
     a.on_trait_change(dyn_pv, "pv")
     a.observe(obs_x, "x")
     a.observe(obs_l, "l:items")
@@ -290,7 +305,10 @@ def snap(a):
             "ad2": -1 if a.ad2 is None else a.ad2.v,
             "oreg": obs_count(a), "zz": [num(dd.get("zz%d" % i, 0)) for i in range(dd["_vz"])],
             "ade": -5 if a.ade is None else num(getattr(a.ade, "v", -7)),
-            "pv": onum(dd.get("pv")), "dpv": num(a.deleg.__dict__.get("pv", -3))}
+            "pv": onum(dd.get("pv")), "dpv": num(a.deleg.__dict__.get("pv", -3)),
+            "ch": None if "child" not in dd else num(dd["child"].value),
+            "chreg": bool((dd.get("__traits_listener__") or {}).get("child.value")),
+            "u": atom(a.u) if type(a.u) in (int, str) else -99}
 
 
 def reg(a):
@@ -301,7 +319,10 @@ def reg(a):
              len(a._trait("trait_added", 2)._notifiers(False) or []),
              len(a._trait("q", 2)._notifiers(False) or []),
              len(a._trait("pv", 2)._notifiers(False) or []),
-             len(a.deleg._trait("pv", 2)._notifiers(False) or [])]
+             len(a.deleg._trait("pv", 2)._notifiers(False) or []),
+             len(a._trait("child", 2)._notifiers(False) or []),
+             len(a.__dict__["child"]._trait("value", 2)._notifiers(False) or []) if "child" in a.__dict__ else 0,
+             len(a.__dict__.get("__traits_listener__") or {})]
     for i in range(a.__dict__["_vz"]):
         sizes.append(len(a._trait("zz%d" % i, 2)._notifiers(False) or []))
     h = 0
@@ -392,6 +413,16 @@ def execute(a, op, echo):
         a.deleg.pv = val(op[1])
     elif k == "DelPV":
         del a.pv
+    elif k == "RegDot":
+        a.on_trait_change(a.__dict__["_h10"], "child.value")
+    elif k == "UnregDot":
+        a.on_trait_change(a.__dict__["_h10"], "child.value", remove=True)
+    elif k == "ReadCh":
+        a.child
+    elif k == "SetCV":
+        a.child.value = op[1]
+    elif k == "SetU":
+        a.u = val(op[1])
     elif k == "SetXQ":
         a.trait_setq(x=val(op[1]))
     elif k == "ObsRemove":
